@@ -16,7 +16,9 @@ NEIGH = {
 GSS_SUFFIXES = ['dZuIebMjgUqaxvbF7hDbAw==', 'a+b/c0==', 'toWM5Slw5Ew8Mqkay+al2g==']
 UNKNOWN = {'kex': 'frob-kex@example.org', 'key': 'frob-key@example.org', 'enc': 'frob-enc@example.org', 'mac': 'frob-mac@example.org'}
 UNKNOWN_SHAPED = [('enc', 'aes999-cbc'), ('enc', 'chacha20-poly1305@example.org'), ('mac', 'hmac-frob-etm@openssh.com'),
-                  ('kex', 'kex-strict-x-v00@example.org')]
+                  ('kex', 'kex-strict-x-v00@example.org'),
+                  # a known name with surrounding blanks is another name (a peer that separates its lists with ", " sends these)
+                  ('enc', ' aes128-ctr'), ('enc', 'aes192-ctr '), ('mac', '\thmac-sha1'), ('mac', 'hmac-sha2-512-etm@openssh.com\u00a0'), ('kex', ' diffie-hellman-group14-sha256'), ('key', ' ecdsa-sha2-nistp256')]
 
 
 def instantiate(cat, name):
@@ -155,7 +157,7 @@ def observe(cat, inst, lists, role, fmt, small=False, asym=None):
         return res, notes
     rep = report.TextReport(res.stdout)
     for a in rep.algs[cat]:
-        if a['name'] == inst:
+        if a['name'] == inst or (inst != inst.strip() and a['name'] == inst.strip()):      # the text layout cannot show surrounding blanks
             return res, sorted((lv, t) for lv, t in a['notes'] if t != '')
     return res, None
 
